@@ -205,6 +205,8 @@ pub struct TreeOut {
     pub obs: Vec<Vec<u64>>,
     pub runs: Vec<u32>,
     pub setups: Vec<u32>,
+    /// after a second setup, on a fresh world
+    pub setups2: Vec<u32>,
     pub result: Option<String>,
     pub root_reads: Vec<ResourceId>,
     pub root_writes: Vec<ResourceId>,
@@ -233,6 +235,14 @@ pub fn run_tree(t: &Tree, site: u8, dispatches: u8) -> TreeOut {
     let mut world = new_world();
     ps.setup(&mut world);
     out.setups = ctx.setups.lock().unwrap().clone();
+    // a fresh world in the same variable needs setting up again: every leaf is reached a second time
+    world = new_world();
+    if site == 1 {
+        shred::RunNow::setup(&mut ps, &mut world);
+    } else {
+        ps.setup(&mut world);
+    }
+    out.setups2 = ctx.setups.lock().unwrap().clone();
     for i in 1..=dispatches {
         ctx.dispatch_no.store(i as u32, Ordering::Relaxed);
         let r = catch_unwind(AssertUnwindSafe(|| {
@@ -275,6 +285,9 @@ pub fn analyze_tree(t: &Tree, dispatches: u8, o: &TreeOut, twin: Option<&TreeOut
         }
         if o.setups[id] != 1 {
             vs.push(("setup-missed-leaf".into(), format!("leaf {} was set up {} times", id, o.setups[id])));
+        }
+        if o.setups2.get(id).copied().unwrap_or(2) != 2 {
+            vs.push(("second-setup-missed-leaf".into(), format!("leaf {} has been set up {} times after two setup calls (the second on a fresh world)", id, o.setups2[id])));
         }
     }
     // seq ordering, per dispatch
